@@ -233,6 +233,63 @@ func b2i(b bool) int {
 	return 0
 }
 
+// anonTab: scenarios whose calls carry no call token (notoken: the caller attaches no metadata at all, so the
+// library's "no metadata" paths run). Calls are strictly sequential there: the first envelope of a new id on the
+// client's wire belongs to the call started last, and a new handler to the request the server read last.
+type anonTab struct {
+	mu      sync.Mutex
+	opening []int          // calls started whose first envelope has not been seen yet
+	idTok   map[string]int // "conn/id" -> call
+	srvNew  []int          // requests read by the server whose handler has not started yet
+}
+
+var anon *anonTab
+
+func (a *anonTab) started(c int) {
+	a.mu.Lock()
+	a.opening = append(a.opening, c)
+	a.mu.Unlock()
+}
+
+func (a *anonTab) nextHandler() int {
+	a.mu.Lock()
+	defer a.mu.Unlock()
+	if len(a.srvNew) == 0 {
+		return 0
+	}
+	c := a.srvNew[0]
+	a.srvNew = a.srvNew[1:]
+	return c
+}
+
+// fix fills in the call of a wire event from what the harness knows.
+func (a *anonTab) fix(name string, conn int, x *EnvRec) {
+	a.mu.Lock()
+	defer a.mu.Unlock()
+	key := fmt.Sprintf("%d/%s", conn, x.Id)
+	c, known := a.idTok[key]
+	if !known && name == "CW" && x.H == 1 && len(a.opening) > 0 {
+		c, known = a.opening[0], true
+		a.opening = a.opening[1:]
+		a.idTok[key] = c
+	}
+	if known {
+		x.C = c
+		if name == "SR" && x.H == 1 && x.T == 0 && x.R == 0 && !a.seenSR(key) {
+			a.srvNew = append(a.srvNew, c)
+		}
+	}
+}
+
+func (a *anonTab) seenSR(key string) bool {
+	k := "sr:" + key
+	if _, ok := a.idTok[k]; ok {
+		return true
+	}
+	a.idTok[k] = 0
+	return false
+}
+
 // envEv builds a wire event for an envelope.
 func envEv(name string, conn int, r *goat.Rpc) Ev {
 	e := ev(name)
@@ -263,6 +320,9 @@ func envEv(name string, conn int, r *goat.Rpc) Ev {
 	}
 	if r.GetReset_() != nil {
 		x.Rtype = r.GetReset_().GetType()
+	}
+	if a := anon; a != nil && x.C == 0 {
+		a.fix(name, conn, x)
 	}
 	e.Env = x
 	e.C = x.C
